@@ -629,6 +629,10 @@ fn gen_input(rng: &mut Rng, maxlen: usize, samples: &(Vec<&'static str>, Vec<&'s
     let narrow = rng.chance(1, 3);
     let guided = !samples.1.is_empty() && rng.chance(5, 6);
     let mut s = String::new();
+    // a byte order mark is a character like any other: it is lexed (or is a lexing error), never skipped
+    if rng.chance(1, 10) {
+        s.push('\u{feff}');
+    }
     while s.chars().count() < n {
         if guided && rng.chance(14, 15) {
             // start with something a rule active in the initial state matches
